@@ -113,9 +113,19 @@ func (s *Syncer[H]) networkHead(ctx context.Context) (H, bool, error) {
 		// nothing new, just return what we have already
 		return sbjHead, false, nil
 	}
+	// The request may have been in flight for a while and the subjective head may have moved on in the
+	// meantime (headersub, another Head call): a head that has been overtaken must not be applied anymore,
+	// otherwise it is written to the Store under a running sync and makes its next batch non-adjacent.
+	// Applying is serialized with the other writers of the subjective head.
+	s.incomingMu.Lock()
+	if current, err := s.localHead(ctx); err == nil && newHead.Height() <= current.Height() {
+		s.incomingMu.Unlock()
+		return current, false, nil
+	}
 	// set the new head as subjective, skipping expensive verification
 	// as it was already verified by the Exchange.
 	s.setLocalHead(ctx, newHead)
+	s.incomingMu.Unlock()
 
 	log.Infow(
 		"successfully requested a more recent network head",
